@@ -43,6 +43,11 @@ func main() {
 		if p.Floors != nil {
 			d["floors"] = p.Floors(*tier)
 		}
+		var ls []map[string]any
+		for _, l := range p.Layers(*tier) {
+			ls = append(ls, map[string]any{"name": l.Name, "cases": l.N, "exhaustive": l.Exhaustive})
+		}
+		d["layers"] = ls
 		b, _ := json.Marshal(d)
 		fmt.Println(string(b))
 		return
